@@ -349,7 +349,30 @@ class Ctx:
         self.cov["skipped"] += sum(1 for v in verdicts if v.get("ok") and str(v.get("detail", "")).startswith("skipped"))
         self.cov["traces_validated_against_impl"] += len(verdicts)
         self.cov["evaluations"] += len(verdicts)
-        if bad and confirm:
+        if bad and confirm == "any":
+            # schedule-dependent behaviour: a deviation class is confirmed when re-running the
+            # failing cases (up to 3 times) fails again at least once; verdicts that never
+            # recur are dropped
+            sub = [by_id[v["id"]] for v in bad[:200]]
+            again = {}
+            for attempt in range(3):
+                cp2 = self.write_ndjson("cases-%s-confirm.ndjson" % family, sub)
+                vp2 = os.path.join(self.work, "verdicts-%s-confirm.ndjson" % family)
+                self.harness([family, "replay", cp2, vp2] + list(extra_args), timeout=timeout)
+                for w in self.read_ndjson(vp2):
+                    if not w.get("ok"):
+                        again[w["id"]] = w
+                if again:
+                    break
+            if not again:
+                raise Infra("%d deviations never recurred in 3 further runs (%s) - no verdict" % (len(bad), family))
+            confirmed = []
+            for v in bad:
+                v["case"] = by_id[v["id"]]
+                v["recurred"] = v["id"] in again
+                confirmed.append(v)
+            self.report(confirmed, what)
+        elif bad and confirm:
             sub = [by_id[v["id"]] for v in bad[:200]]
             cp2 = self.write_ndjson("cases-%s-confirm.ndjson" % family, sub)
             vp2 = os.path.join(self.work, "verdicts-%s-confirm.ndjson" % family)
